@@ -131,6 +131,7 @@ pub struct SA {
     pub log: Vec<String>,
     pub seq: u32,
     pub run_inv: u32,
+    pub run_evals: u32,
 }
 
 pub struct Args {
@@ -194,6 +195,7 @@ impl Actor for SA {
                         log: vec!["on_start".to_string()],
                         seq: 0,
                         run_inv: 0,
+                        run_evals: 0,
                     }),
                 }
             }),
@@ -201,7 +203,61 @@ impl Actor for SA {
         .await
     }
 
-    async fn on_run(
+    // a plain fn with a synchronous part: the framework's select! evaluates `actor.on_run(..)` on every turn of the
+    // loop, whether or not the idle branch is then polled; the count is part of the actor's final state
+    fn on_run(&mut self, actor_weak: &ActorWeak<Self>) -> impl Future<Output = Result<bool, TagErr>> + Send {
+        self.run_evals += 1;
+        self.on_run_body(actor_weak)
+    }
+    async fn on_stop(
+        &mut self,
+        actor_weak: &ActorWeak<Self>,
+        killed: bool,
+    ) -> Result<(), TagErr> {
+        let idx = self.idx;
+        let owner = self.owner;
+        let first: Box<dyn FnOnce() + Send> = Box::new(move || {
+            ev(EvK::Called { actor: idx, hook: Hook::OnStop, msg: None, killed: Some(killed), inv: 0 })
+        });
+        let entry = self.spec.on_stop.entry_yield;
+        Controlled::new(
+            owner,
+            entry,
+            Some(first),
+            None,
+            Box::pin(async move {
+                self.log.push(format!("on_stop:{killed}"));
+                let hs = self.spec.on_stop.clone();
+                {
+                    let mut cx = Cx {
+                        who: Who::Actor(idx),
+                        slots: &mut self.slots,
+                        self_ref: None,
+                        self_weak: Some(actor_weak),
+                        hook: Some(Hook::OnStop),
+                        msg: None,
+                        inv: 0,
+                    };
+                    run_steps(&mut cx, &hs.steps, false).await;
+                }
+                ev(EvK::Exit { actor: idx, hook: Hook::OnStop, msg: None, out: out_str(&hs.out) });
+                match hs.out {
+                    Outcome::Err(t) => Err(TagErr(t)),
+                    Outcome::Panic(t) => panic!("injected:{t}"),
+                    Outcome::Pend => {
+                        std::future::pending::<()>().await;
+                        unreachable!()
+                    }
+                    _ => Ok(()),
+                }
+            }),
+        )
+        .await
+    }
+}
+
+impl SA {
+    async fn on_run_body(
         &mut self,
         actor_weak: &ActorWeak<Self>,
     ) -> Result<bool, TagErr> {
@@ -250,52 +306,6 @@ impl Actor for SA {
             }),
         )
         .free(free)
-        .await
-    }
-
-    async fn on_stop(
-        &mut self,
-        actor_weak: &ActorWeak<Self>,
-        killed: bool,
-    ) -> Result<(), TagErr> {
-        let idx = self.idx;
-        let owner = self.owner;
-        let first: Box<dyn FnOnce() + Send> = Box::new(move || {
-            ev(EvK::Called { actor: idx, hook: Hook::OnStop, msg: None, killed: Some(killed), inv: 0 })
-        });
-        let entry = self.spec.on_stop.entry_yield;
-        Controlled::new(
-            owner,
-            entry,
-            Some(first),
-            None,
-            Box::pin(async move {
-                self.log.push(format!("on_stop:{killed}"));
-                let hs = self.spec.on_stop.clone();
-                {
-                    let mut cx = Cx {
-                        who: Who::Actor(idx),
-                        slots: &mut self.slots,
-                        self_ref: None,
-                        self_weak: Some(actor_weak),
-                        hook: Some(Hook::OnStop),
-                        msg: None,
-                        inv: 0,
-                    };
-                    run_steps(&mut cx, &hs.steps, false).await;
-                }
-                ev(EvK::Exit { actor: idx, hook: Hook::OnStop, msg: None, out: out_str(&hs.out) });
-                match hs.out {
-                    Outcome::Err(t) => Err(TagErr(t)),
-                    Outcome::Panic(t) => panic!("injected:{t}"),
-                    Outcome::Pend => {
-                        std::future::pending::<()>().await;
-                        unreachable!()
-                    }
-                    _ => Ok(()),
-                }
-            }),
-        )
         .await
     }
 }
@@ -1478,6 +1488,7 @@ fn summarize(res: Result<ActorResult<SA>, tokio::task::JoinError>) -> (JoinSumma
                     error: None,
                     has_actor: false,
                     actor_log: vec![],
+                    run_evals: 0,
                     panic_msg: msg,
                     laws_ok: true,
                     laws_detail: String::new(),
@@ -1496,6 +1507,7 @@ fn summarize(res: Result<ActorResult<SA>, tokio::task::JoinError>) -> (JoinSumma
                         error: None,
                         has_actor: true,
                         actor_log: actor.log.clone(),
+                        run_evals: actor.run_evals,
                         panic_msg: None,
                         laws_ok,
                         laws_detail,
@@ -1510,6 +1522,7 @@ fn summarize(res: Result<ActorResult<SA>, tokio::task::JoinError>) -> (JoinSumma
                         error: Some(error.0),
                         has_actor: actor.is_some(),
                         actor_log: actor.as_ref().map(|a| a.log.clone()).unwrap_or_default(),
+                        run_evals: actor.as_ref().map(|a| a.run_evals).unwrap_or(0),
                         panic_msg: None,
                         laws_ok,
                         laws_detail,
